@@ -9,12 +9,14 @@ stdin  {"cases": [{"kind":"aux","entry":str,"dir":"plain|symlink|rel|symrel","fa
 stdout last line: [{"ok":bool,"globals":[bool..],"args_same":bool,"exc":str}]
 """
 import argparse
+import collections
+import enum
 import io
 import json
 import os
 import shutil
 import sys
-from typing import Dict, List
+from typing import Dict, List, Mapping, Tuple
 
 from jsonargparse import ActionConfigFile, ArgumentParser, Namespace
 from jsonargparse._common import parser_context_vars
@@ -67,6 +69,54 @@ def untyped(p):
     p.add_argument("maybe", nargs="?", help="optional positional")
     p.add_argument("source", help="where from")
     p.add_argument("targets", nargs="+", help="where to")
+
+
+class Color(enum.Enum):
+    RED = 1
+    BLUE = 2
+
+
+def deep(o):
+    """deep snapshot of an argument: value, exact type and identity of every nested container, exact type of every leaf"""
+    if isinstance(o, Namespace):
+        return ("Namespace", id(o), [(k, deep(v)) for k, v in vars(o).items()])
+    if isinstance(o, dict):
+        return (type(o).__name__, id(o), [(k, deep(v)) for k, v in o.items()])
+    if isinstance(o, (list, tuple)):
+        return (type(o).__name__, id(o), [deep(v) for v in o])
+    return (type(o).__name__, repr(o))
+
+
+def od_parser():
+    """typed lists inside mapping-typed arguments; the values handed over are dict SUBCLASS objects, which
+    recreate_branches deliberately does not rebuild (OrderedDict) or rebuilds as what they are (defaultdict)"""
+    p = ArgumentParser(exit_on_error=False)
+    p.add_argument("--m", type=Dict[str, List[float]], default={})
+    p.add_argument("--e", type=Mapping[str, List[Color]], default={})
+    p.add_argument("--dd", type=Dict[str, List[int]], default={})
+    p.add_argument("--t", type=Dict[str, Tuple[List[float], int]], default={})
+    p.add_argument("--a", type=int, default=1)
+    return p
+
+
+def od_values(parsed, fail):
+    e = [Color.RED, Color.BLUE] if parsed else ["RED", "BLUE"]
+    dd = collections.defaultdict(list)
+    dd["k"] = [1, 2] if parsed else ["1", 2]
+    return {"m": collections.OrderedDict(a=[1, 2], b=[3]), "e": collections.OrderedDict(c=e), "dd": dd,
+            "t": collections.OrderedDict(p=([1, 2], 3)), "a": "x" if fail else 5}
+
+
+def links_parser():
+    """parse-time links; one of them leaves its target's parent holding nothing else"""
+    def decls(q):
+        q.add_argument("--a", type=int, default=1)
+        q.add_argument("--g.x", type=int, default=0)
+        q.add_argument("--g.y", type=int)
+        q.add_argument("--h.z", type=int)
+        q.link_arguments("a", "g.y")
+        q.link_arguments("g.x", "h.z")
+    return decls
 
 
 def mapping_pair(p):
@@ -159,9 +209,34 @@ def run(case, base, idx):
         else:
             arg = Namespace(a="x" if fail else 3, l=[1, 2], opts={"mode": "slow", "level": 2}, lim={"lo": 0, "hi": 9})
             call = (lambda: p.dump(arg, skip_default=True)) if entry == "dump_skip_default" else (lambda: p.validate(arg))
+    elif entry in ("od_parse_object", "od_validate", "od_dump"):
+        p = od_parser()
+        if entry == "od_parse_object":
+            arg = od_values(False, fail)
+            call = lambda: p.parse_object(arg)
+        else:
+            arg = Namespace(**od_values(entry == "od_dump", fail))
+            call = (lambda: p.validate(arg)) if entry == "od_validate" else (lambda: p.dump(arg))
+    elif entry in ("save_links", "save_links_sub", "dump_links"):
+        # parse, then save (multi-file mode, the default) / dump the parsed configuration: is it still what it was?
+        decls = links_parser()
+        p = ArgumentParser(exit_on_error=False)
+        if entry == "save_links_sub":
+            sub = ArgumentParser(exit_on_error=False)
+            decls(sub)
+            sc = p.add_subcommands()
+            sc.add_subcommand("fit", sub)
+            arg = p.parse_args(["fit", "--a=3", "--g.x=4"])
+        else:
+            decls(p)
+            arg = p.parse_args(["--a=3", "--g.x=4"])
+        out = place(work, kind, "out.yaml", "")
+        if not fail:
+            os.remove(os.path.join(work, "real", "out.yaml"))      # fail: the target exists and overwrite is off
+        call = (lambda: p.dump(arg)) if entry == "dump_links" else (lambda: p.save(arg, out))
     else:
         raise SystemExit("unknown entry " + entry)
-    snap = repr(arg)
+    snap = deep(arg)
     known = {id(a) for a in p._actions}   # parse_args may add helper actions lazily; they are not declarations
     d_before = declared(p)
     g_before = read_globals()
@@ -181,7 +256,7 @@ def run(case, base, idx):
     argparse.Namespace = ORIG_ARGPARSE_NS
     d_after = declared(p, known)
     shutil.rmtree(work, ignore_errors=True)
-    return {"ok": ok, "globals": gl, "args_same": repr(arg) == snap, "defaults_same": d_before == d_after,
+    return {"ok": ok, "globals": gl, "args_same": deep(arg) == snap, "defaults_same": d_before == d_after,
             "exc": exc}
 
 
